@@ -18,7 +18,7 @@
 (* InvGuard fails.                                                         *)
 (***************************************************************************)
 EXTENDS ListLayout, SequencesExt, Json
-CONSTANTS ItemIds, MaxItems, MaxTriv, MaxCmt, MaxW, Unit, GenOn, AsFoundI
+CONSTANTS ItemIds, MaxItems, MaxTriv, MaxCmt, Widths, Unit, GenOn, AsFoundI
 
 VARIABLES seq, paren, phase, needNl, done
 vars == <<seq, paren, phase, needNl, done>>
@@ -44,7 +44,8 @@ Emit(ev, ph, nn) == seq' = Append(seq, ev) /\ phase' = ph /\ needNl' = nn /\ don
 AItem == ~done /\ ~needNl /\ phase \in {"start", "comma"} /\ Count({"item"}) < MaxItems
          /\ \E id \in ItemIds : Emit(ItemEv(id), "item", FALSE)           \* the same item twice is allowed (a duplicate)
 AComma == ~done /\ ~needNl /\ phase = "item" /\ Emit([e |-> "comma"], "comma", FALSE)
-TRoom == ~done /\ Count({"sp", "nl", "bc", "lc"}) < MaxTriv
+(* without parentheses the trivia before the first item belongs to the prefix of the statement, not to the items *)
+TRoom == ~done /\ Count({"sp", "nl", "bc", "lc"}) < MaxTriv /\ (paren \/ phase # "start")
 ASp == TRoom /\ ~needNl /\ ~LastWs /\ Emit([e |-> "sp"], phase, FALSE)
 ANl == TRoom /\ paren /\ ~LastWs /\ Emit([e |-> "nl", n |-> 1], phase, FALSE)
 ABc == TRoom /\ ~needNl /\ Count({"bc", "lc"}) < MaxCmt /\ Emit([e |-> "bc", txt |-> BcTxt(Count({"bc", "lc"}) + 1)], phase, FALSE)
@@ -118,8 +119,9 @@ LexLines(ls, k, acc, pend) ==
 Relex(ls) == LET all == LexLines(ls, 1, <<>>, 0)
                  body == SelectSeq(SubSeq(all, 2, Len(all)), LAMBDA x : x.e # "delim")
              IN IF body # <<>> /\ body[1].e = "sp" THEN Tail(body) ELSE body
-OutItems(ls) == [i \in 1..Len(Items(Relex(ls))) |-> Items(Relex(ls))[i].id]
-SrcItems == [i \in 1..Len(Items(seq)) |-> Items(seq)[i].id]
+IdsOf(evs) == LET its == Items(evs) IN [i \in 1..Len(its) |-> its[i].id]
+OutItems(ls) == IdsOf(Relex(ls))
+SrcItems == IdsOf(seq)
 IdSet == {"a", "ab", "b", "ba", "ma", "mac", "mb"}
 CountId(ids, x) == Cardinality({i \in 1..Len(ids) : ids[i] = x})
 IsPermutation(s, t) == Len(s) = Len(t) /\ \A x \in IdSet : CountId(s, x) = CountId(t, x)
@@ -127,25 +129,44 @@ IsSortedIds(ids) == \A i \in 1..(Len(ids) - 1) : ItemOf(ids[i]).rank <= ItemOf(i
 LineComments == {seq[i].txt : i \in {j \in 1..Len(seq) : seq[j].e = "lc"}}
 
 (* C19: with reordering off the items keep their source order, at every width *)
-InvOffOrder == done => \A w \in 0..MaxW : OutItems(Out(FALSE, w)) = SrcItems
+InvOffOrder == done => \A w \in Widths : OutItems(Out(FALSE, w)) = SrcItems
 (* C19: with reordering on the items are a permutation of the source's ... *)
-InvOnPermutation == done => \A w \in 0..MaxW : IsPermutation(OutItems(Out(TRUE, w)), SrcItems)
+InvOnPermutation == done => \A w \in Widths : IsPermutation(OutItems(Out(TRUE, w)), SrcItems)
 (* ... sorted exactly when the import has no comment and binds no name twice; otherwise the order is the source's *)
-InvGuard == done => \A w \in 0..MaxW :
+InvGuard == done => \A w \in Widths :
                IF ~HasComment(seq) /\ TrueNoDup(seq) THEN IsSortedIds(OutItems(Out(TRUE, w)))
                ELSE Out(TRUE, w) = Out(FALSE, w)
 (* C06 / C04: comments survive, a line comment ends its line *)
-InvTermination == done => \A w \in 0..MaxW : \A on \in BOOLEAN : \A i \in 1..Len(Out(on, w)) : \A t \in LineComments :
+InvTermination == done => \A w \in Widths : \A on \in BOOLEAN : \A i \in 1..Len(Out(on, w)) : \A t \in LineComments :
                              Occurs(Out(on, w)[i], t) # {} => EndsWithS(Out(on, w)[i], t)
-InvComments == done => \A w \in 0..MaxW : \A on \in BOOLEAN :
+InvComments == done => \A w \in Widths : \A on \in BOOLEAN :
                   SelectSeq(Relex(Out(on, w)), LAMBDA x : x.e \in {"bc", "lc"}) = SelectSeq(seq, LAMBDA x : x.e \in {"bc", "lc"})
-InvIndentUnit == done => \A w \in 0..MaxW : \A on \in BOOLEAN : \A i \in 1..Len(Out(on, w)) :
+InvIndentUnit == done => \A w \in Widths : \A on \in BOOLEAN : \A i \in 1..Len(Out(on, w)) :
                     Out(on, w)[i] = "" \/ (LTrimPosS(Out(on, w)[i], 1) - 1) \in {0, Unit}
 (* C03 at model level, both settings: the output laid out again *)
-InvConvergence == done => \A w \in 0..MaxW : \A on \in BOOLEAN : OutOf(Relex(Out(on, w)), on, w) = Out(on, w)
+InvConvergence == done => \A w \in Widths : \A on \in BOOLEAN : OutOf(Relex(Out(on, w)), on, w) = Out(on, w)
+
+(* all of the above with every output rendered once per state (TLC caches a LET value, not an operator application) *)
+InvAll ==
+  done =>
+    LET outs == [on \in BOOLEAN |-> [w \in Widths |-> Out(on, w)]]
+        rel == [on \in BOOLEAN |-> [w \in Widths |-> Relex(outs[on][w])]]
+        src == SrcItems
+        cm == SelectSeq(seq, LAMBDA x : x.e \in {"bc", "lc"})
+        guard == ~HasComment(seq) /\ TrueNoDup(seq)
+    IN \A w \in Widths :
+         /\ IdsOf(rel[FALSE][w]) = src                                                  \* InvOffOrder
+         /\ IsPermutation(IdsOf(rel[TRUE][w]), src)                                     \* InvOnPermutation
+         /\ IF guard THEN IsSortedIds(IdsOf(rel[TRUE][w])) ELSE outs[TRUE][w] = outs[FALSE][w]   \* InvGuard
+         /\ \A on \in BOOLEAN :
+              /\ \A i \in 1..Len(outs[on][w]) :
+                    /\ \A t \in LineComments : Occurs(outs[on][w][i], t) # {} => EndsWithS(outs[on][w][i], t)
+                    /\ outs[on][w][i] = "" \/ (LTrimPosS(outs[on][w][i], 1) - 1) \in {0, Unit}
+              /\ SelectSeq(rel[on][w], LAMBDA x : x.e \in {"bc", "lc"}) = cm
+              /\ OutOf(rel[on][w], on, w) = outs[on][w]                                  \* InvConvergence
 
 Gen == (done /\ GenOn) => PrintT(<<"GEN", ToJson([inst |-> "import", unit |-> Unit, paren |-> paren,
                                                  seq |-> [i \in 1..Len(seq) |-> IF seq[i].e = "item" THEN [e |-> "item", txt |-> seq[i].txt] ELSE seq[i]],
-                                                 pred |-> [w \in 0..MaxW |-> Out(FALSE, w)],
-                                                 pred_on |-> [w \in 0..MaxW |-> Out(TRUE, w)]])>>)
+                                                 pred |-> [w \in Widths |-> Out(FALSE, w)],
+                                                 pred_on |-> [w \in Widths |-> Out(TRUE, w)]])>>)
 =============================================================================
